@@ -33,6 +33,33 @@ def usable(c):
     return c.panic is None and c.accepted and c.graph is not None and c.dfa and c.dfa.get('start') is not None and c.graph['states']
 
 
+def graph_features(c):
+    """Structural features of a captured graph that code generation treats specially."""
+    f = set()
+    g = c.graph
+    for s, st in g['states'].items():
+        e, a = st['early'], st['accept']
+        ne = len(st['edges'])
+        if e is not None and a is not None: f.add('both_early_and_accept')
+        if e is not None and a is not None and e != a: f.add('both_with_different_leaves')
+        if a is not None and e is None and ne: f.add('late_accept_with_byte_edges')
+        if e is not None and ne: f.add('early_with_byte_edges')
+        if st['eoi'] is not None: f.add('eoi_edge')
+        if st['eoi'] is not None and ne == 0: f.add('eoi_edge_without_byte_edges')
+        if st['eoi'] is not None and (e is not None or a is not None): f.add('eoi_edge_from_accepting_state')
+        if any(t == s for t, rs in st['edges']):
+            f.add('self_loop')
+            if e is not None or a is not None: f.add('self_loop_on_accepting_state')
+            if ne == 1: f.add('self_loop_only')
+        if ne == 2: f.add('state_with_2_edges')
+        if ne == 3: f.add('state_with_3_edges')
+        if ne > 3: f.add('state_with_more_than_3_edges')
+        if any(hi >= 0x80 for t, rs in st['edges'] for lo, hi in rs): f.add('non_ascii_edges')
+        if any(t == g['root'] for t, rs in st['edges']) and s != g['root']: f.add('edge_back_to_root')
+        if any(len(rs) > 2 for t, rs in st['edges']): f.add('class_with_more_than_2_ranges')
+    return f
+
+
 def compiled_sets(tier, featuresets, profile='debug'):
     """Build the curated harness and the seed's random harness. Returns list of (label, {fs:(exe,caps)}, enums)."""
     sd = seed()
@@ -61,10 +88,36 @@ def compiled_sets(tier, featuresets, profile='debug'):
         open(tmpb, 'w').write(build.make_twin('\n'.join(cand)))
         capsb = build.capture_files([tmpb], 'randcandb-%d-%d' % (sd, n))
         okb = set(c.name[:-1] for c in capsb if usable(c))
-        keep = [x for x in cand if re.search(r'pub enum (\w+)', x).group(1) in (okn & okb)][:n]
+        usable_c = [x for x in cand if re.search(r'pub enum (\w+)', x).group(1) in (okn & okb)]
+        # prefer definitions whose graphs show rare structural features (greedy cover), then fill up
+        feats = {c.name: graph_features(c) for c in caps if c.name in okn}
+        keep = []; covered = {}
+        pool = list(usable_c)
+        while pool and len(keep) < n:
+            def gain(x):
+                nm = re.search(r'pub enum (\w+)', x).group(1)
+                return sum(1 for ft in feats.get(nm, ()) if covered.get(ft, 0) < 3)
+            best = max(pool, key=gain)
+            if gain(best) == 0:
+                break
+            keep.append(best); pool.remove(best)
+            for ft in feats.get(re.search(r'pub enum (\w+)', best).group(1), ()):
+                covered[ft] = covered.get(ft, 0) + 1
+        keep += pool[:n - len(keep)]
         open(p, 'w').write('\n'.join(keep))
         stamp_write(d, repo_hash())
-    h2, enums2 = build.build_harness('rand-%d-%d' % (sd, n), [p], [], featuresets, profile)
+    # byte-mode random definitions (byte-oriented classes), compiled as they are
+    pb = os.path.join(d, 'randbytes_plain.rs')
+    if not os.path.exists(pb) or not stamp_ok(d, repo_hash() + 'b'):
+        rngb = random.Random(sd * 7907 + 3)
+        candb = [gen.random_definition(rngb, 'CB%d' % i, forced_accept=True, looks=rngb.random() < 0.4, bytes_mode=True) for i in range(n)]
+        tmp = os.path.join(d, 'candbytes.rs')
+        open(tmp, 'w').write('\n'.join(candb))
+        capsb2 = build.capture_files([tmp], 'randcandbytes-%d-%d' % (sd, n))
+        okb2 = set(c.name for c in capsb2 if usable(c) and len(c.graph['states']) <= 120)
+        keepb = [x for x in candb if re.search(r'pub enum (\w+)', x).group(1) in okb2][:max(6, n // 3)]
+        open(pb, 'w').write('\n'.join(keepb))
+    h2, enums2 = build.build_harness('rand-%d-%d' % (sd, n), [p], [pb], featuresets, profile)
     out.append(('random', h2, enums2))
     return out
 
@@ -162,6 +215,13 @@ def run_k2(res, sets, featuresets, tier, modes=(0,), want_tags=None, drv=None):
                     mism.append((label, fs, en, 0, b'', {'graph-differs'}, 'captured graph differs between feature sets', None))
     res.count('k2_probe_runs', total)
     res.count('k2_graph_states_driven', states_cov)
+    cov = {}
+    for label, h, enums in sets:
+        for en, c in h[featuresets[0]][1].items():
+            if usable(c):
+                for ft in graph_features(c):
+                    cov[ft] = cov.get(ft, 0) + 1
+    res.cov['compiled_definitions_by_graph_feature'] = dict(sorted(cov.items()))
     return mism
 
 
